@@ -297,7 +297,9 @@ PROPS["C19"] = dict(
     assumptions=E2_ASSUME[:3] + ["known finding F1 (stale point lookup after repair, see known_findings.txt) is matched by its precise signature only"],
     stages=[dict(name="repair", driver="repair", flavour="asan",
                  quick=["--cfgs", "B1", "--len", "3", "--sdepth", "1"],
-                 thorough=["--cfgs", "B1;B1,snappy=1,bloom=1;B1,cmp=0,reuse=1", "--len", "4", "--sdepth", "2"])],
+                 thorough=["--cfgs", "B1;B1,snappy=1,bloom=1;B1,cmp=0,reuse=1", "--len", "4", "--sdepth", "2"]),
+            dict(name="repair-filter", driver="repair", flavour="asan", tiers=["quick"],
+                 quick=["--cfgs", "B1,bloom=1;B1,snappy=1,cmp=1", "--len", "2", "--sdepth", "1"])],
 )
 ENGINES["repair"] = "E2: state enumeration x metadata damage, real ldb_repair/ldb_open vs independent decoders of the surviving files"
 
